@@ -13,7 +13,8 @@ RULE = ("fault matrix: 14 fault kinds (operand type mismatch in 4 operator famil
         "output = exactly the preceding prints, status = error, line = the faulting statement's line, file = the file it "
         "is written in, message = m for _এরর. Also compared with the Lean model (class, line, file, message). The command "
         "line tool is run on a sample: exit status 1, diagnostic on stderr, stdout preserved. "
-        "Non-trivial: call depth >= 1 or the fault is in a module.")
+        "Non-trivial: call depth >= 1 or the fault is in a module."
+        ' Closing-return-fault family (fault in the operand of the return written after the block: empty / non-empty body x top / nested / module) and multiline-before-fault family (literals and comments spanning lines, ending in a line break, CR, CR LF, before the faulting statement).')
 ASSUMPTIONS = ["every statement is written on one line, so 'the line of the statement' is unambiguous"]
 default_compare = lambda m, i: C.compare_run(m, i, line=True, file=True)
 
@@ -178,6 +179,73 @@ def mk_case(name, r, stmts, depth, in_module, cls, msg, root_ph="@ROOT@"):
                         "depth": depth, "in_module": in_module}, nontrivial=depth >= 1 or in_module)
 
 
+def closing_return_faults(tier):
+    """the fault sits in the operand of the return written AFTER the function's block (`ফাং f(x) { … } ফেরত <fault>;`), the body
+    being empty or not, the function called from the top level, from another such function, or living in a module: the reported
+    location is the line (and file) that return is written on, never the call site"""
+    out = []
+    for fi, (fname, fmk, cls) in enumerate(FAULTS):
+        for body_kind in ("empty", "one-statement"):
+            for ctx in ("top", "nested", "module"):
+                if tier != "thorough" and (fi + len(body_kind) + len(ctx)) % 2:
+                    continue
+                body = [] if body_kind == "empty" else [("print", G.s("দেহ"))]
+                unit = list(SETUP) + [("func", "একই", ["x"], [("return", G.var("x"))]), ("func", "খালি", ["প"], body, fmk())]
+                marker = G.source(unit, "lines").count("\n")          # the closing return is the last line rendered so far
+                if ctx == "nested":
+                    unit.append(("func", "বাইরে", [], [], G.call("খালি", G.num(1))))
+                    call = G.call("বাইরে")
+                else:
+                    call = G.call("খালি", G.num(1))
+                unit += [("print", G.s("ডাকের আগে")), ("print", call), ("print", G.s("পরে"))]
+                src = G.source(unit, "lines")
+                outp = "ডাকের আগে\n" + ("দেহ\n" if body_kind != "empty" else "")
+                msg = "নিজস্ব বার্তা ১২৩" if fname == "error-builtin" else None
+                if ctx == "module":
+                    main = G.source([("print", G.s("মূল")), ("import", "ম", "mod/fault.pakhi"), ("print", G.s("মূলে ফেরা"))], "lines")
+                    lines = ["RESET", "FILE " + C.hx("@ROOT@/mod/fault.pakhi") + " " + C.hx(src), run_req(main, spec=1)]
+                    info = {"main": main, "module": src, "out": "মূল\n" + outp, "line": marker, "file": "fault.pakhi"}
+                else:
+                    lines = [run_req(src, spec=1)]
+                    info = {"main": src, "module": None, "out": outp, "line": marker, "file": "main.pakhi"}
+                info.update({"cls": cls, "msg": msg, "run_index": len(lines) - 1, "fault": fname, "body": body_kind, "ctx": ctx})
+                out.append(C.Case("closing-return-fault", lines, cmp_run(line=True, file=True, msg=msg is not None), oracle, info=info))
+    return out
+
+
+def multiline_before_fault():
+    contents = ["\u0995\n", "\n", "\u0995\n\u0996\n", "\u0995\r\n", "\u0995\n\n", "\u0995\n\u0996", "\n\u0995", "\u0995\n\r", "\u0995\r", "\n\n\n", " \n "]
+    show, name = "\u09a6\u09c7\u0996\u09be\u0993", "\u09a8\u09be\u09ae"      # দেখাও, নাম
+    faults = [(show + " \u09a4[\u09eb];", "runtime"), (show + " \u0985\u099c\u09be\u09a8\u09be;", "runtime"), (show + " \u09e7 + \"x\";", "type")]
+    out = []
+    for cnt in contents:
+        for wrap in ("decl", "print", "comment", "list", "two"):
+            for gap in ("\n", "\n\n", " "):
+                for fsrc, cls in faults:
+                    head = name + " \u09a4 = [\u09e7, \u09e8];\n"
+                    if wrap == "decl":
+                        mid = name + ' \u09b6 = "' + cnt + '";'
+                        printed = ""
+                    elif wrap == "print":
+                        mid = "_" + show + ' "' + cnt + '";'
+                        printed = cnt
+                    elif wrap == "comment":
+                        mid = "#" + cnt + "#"
+                        printed = ""
+                    elif wrap == "list":
+                        mid = name + ' \u09b6 = ["' + cnt + '", "' + cnt + '"];'
+                        printed = ""
+                    else:
+                        mid = "_" + show + ' "' + cnt + '" + "' + cnt + '";'
+                        printed = cnt + cnt
+                    src = head + mid + gap + fsrc + "\n" + show + ' "\u09aa\u09b0\u09c7";\n'
+                    line = (head + mid + gap).count("\n") + 1
+                    out.append(C.Case("multiline-before-fault", [run_req(src, spec=1)], cmp_run(line=True, file=True), oracle,
+                                      info={"main": src, "module": None, "out": printed, "line": line, "file": "main.pakhi", "cls": cls, "msg": None,
+                                            "run_index": 0, "wrap": wrap}))
+    return out
+
+
 def cases(rng, tier, stats):
     out = []
     n = 0
@@ -246,6 +314,14 @@ def cases(rng, tier, stats):
                 out.append(_pc("index-effect-on-same-list", prog, info={"effect": effect, "index": ret, "via": via}))
                 ne += 1
     stats["index_effect_on_same_list"] = ne
+    # a literal or comment that spans lines (contents ending in a line break, starting with one, holding blank lines or CR LF)
+    # stands before the faulting statement: the reported line is the line the statement is written on, counted in line breaks
+    cr = closing_return_faults(tier)
+    out += cr
+    stats["closing_return_faults"] = len(cr)
+    ml = multiline_before_fault()
+    out += ml
+    stats["multiline_before_fault"] = len(ml)
     from props.C06 import index_boundary_family
     ib = index_boundary_family(tier)
     out += ib
